@@ -1671,6 +1671,8 @@ fn fam_storage_jacsource(o: &mut Out) {
             let a = o.run(c.clone());
             let mut v = c.clone();
             v.jac = "fd".into();
+            // the same problem is not twenty times harder with the default Jacobian
+            v.max_steps = Some(a.sol.as_ref().map_or(20_000, |s| 20 * s.nstep + 100));
             v.tags = vec!["jac_default_fd".into()];
             let b = o.run(v);
             let ok = match (&a.sol, &b.sol) {
@@ -1681,7 +1683,7 @@ fn fam_storage_jacsource(o: &mut Out) {
                     },
                 _ => false,
             };
-            o.pair_f("C15", "grid_values", &a, &b, "fact: analytic and default finite-difference Jacobian both succeed and agree within 1e3 (rtol + atol)", ok);
+            o.pair_f("C15", "grid_values", &a, &b, "fact: analytic and default finite-difference Jacobian both succeed (the latter within 20x the steps of the former) and agree within 1e3 (rtol + atol)", ok);
         }
     }
 }
@@ -2129,7 +2131,7 @@ fn main() {
         }
     } else {
         match fam {
-            "core" => fam_core(&mut o, quick, &mut rng),
+            "core" => { fam_core(&mut o, quick, &mut rng); fam_events_counted(&mut o); }
             "adversarial" => fam_adversarial(&mut o, quick, &mut rng),
             "lowlevel" => fam_lowlevel(&mut o, quick, &mut rng),
             "observer" => { fam_observer(&mut o, quick, &mut rng); fam_observer_wide(&mut o, quick); fam_observer_firststep(&mut o); fam_observer_long(&mut o, quick); fam_observer_stiff(&mut o); fam_observer_terminal(&mut o); fam_observer_tinyspan(&mut o); }
@@ -2137,7 +2139,7 @@ fn main() {
             "terminal" => { fam_terminal(&mut o, quick, &mut rng); fam_terminal_last(&mut o, quick); fam_terminal_sweep(&mut o, quick); fam_terminal_budget(&mut o); fam_terminal_tinysteps(&mut o); fam_terminal_unbounded(&mut o); }
             "symmetry" => fam_symmetry(&mut o, quick, &mut rng),
             "storage" => { fam_storage(&mut o, quick, &mut rng); fam_storage_mass(&mut o, quick); fam_storage_jacsource(&mut o); }
-            "teval" => { fam_teval(&mut o, quick, &mut rng); fam_teval_zero(&mut o); fam_teval_landing(&mut o); fam_teval_offset(&mut o); fam_teval_single(&mut o); fam_teval_minstep(&mut o); }
+            "teval" => { fam_teval(&mut o, quick, &mut rng); fam_teval_zero(&mut o); fam_teval_landing(&mut o); fam_teval_offset(&mut o); fam_teval_single(&mut o); fam_teval_minstep(&mut o); fam_terminal_unbounded(&mut o); }
             "events" => { fam_events(&mut o, quick, &mut rng); fam_events_small(&mut o); fam_events_codes(&mut o); fam_events_tiny(&mut o); fam_events_zero(&mut o); fam_events_tinysteps(&mut o); fam_events_counted(&mut o); }
             _ => { eprintln!("unknown family {}", fam); std::process::exit(2); }
         }
